@@ -1005,6 +1005,7 @@ func runProgram(sc *Scenario, e *env, out map[string]interface{}) {
 
 func runScenario(sc *Scenario) map[string]interface{} {
 	out := map[string]interface{}{"id": sc.ID}
+	_ = failpoint.Disable("tikvclient/beforeAsyncPessimisticRollback") // C06: never inherit a schedule failpoint from an earlier scenario
 	if sc.ManagedTTL > 0 {
 		atomic.StoreUint64(&transaction.ManagedLockTTL, sc.ManagedTTL)
 	} else {
